@@ -1014,6 +1014,11 @@ func TestVerifC01(t *testing.T) {
 		decoy := x.mkCA(it.cv, x.key[it.cu][1], "decoy", nil, nil, nil, 50, 250)
 		pool := x.pool(ca, decoy)
 		var nLeaves int64
+		defer func() {
+			muA.Lock()
+			leavesA += nLeaves
+			muA.Unlock()
+		}()
 		for _, lg := range groupsA {
 			for _, ln := range c01LeafNets(it.lv, thorough) {
 				for _, lu := range c01LeafUnsafe(it.lv, thorough) {
@@ -1045,9 +1050,6 @@ func TestVerifC01(t *testing.T) {
 				}
 			}
 		}
-		muA.Lock()
-		leavesA += nLeaves
-		muA.Unlock()
 	})
 	if !complete {
 		c.Capped("box A time budget")
